@@ -166,6 +166,8 @@ def analyse(run: dict, prov):
     kwargs = {"dialect": run["dialect"], "silent_mode": bool(run.get("silent"))}
     if prov is not None:
         kwargs["metadata_provider"] = prov
+    if run.get("_file_path"):
+        kwargs["file_path"] = run["_file_path"]
     sql = run.get("sep", ";\n").join(run["script"])
 
     def go():
@@ -302,13 +304,29 @@ def run_one(spec: dict) -> dict:
     import sqllineage.runner as runner_mod
     from sqllineage.utils import verif as tapmod
 
+    # 0. project directories: each holds a .sqlfluff whose jinja context gives the SAME templated statement text a
+    # different meaning (the file_path argument of LineageRunner makes sqlfluff read the script's own directory)
+    if spec.get("projects"):
+        import tempfile
+
+        basedir = os.environ.get("VERIF_WORK") or tempfile.gettempdir()
+        pdir = tempfile.mkdtemp(prefix="c12proj-", dir=basedir)
+        for pi, ctx in enumerate(spec["projects"]):
+            d = os.path.join(pdir, f"p{pi}")
+            os.makedirs(d)
+            with open(os.path.join(d, ".sqlfluff"), "w") as f:
+                f.write("[sqlfluff:templater:jinja:context]\n" + "".join(f"{k}={v}\n" for k, v in sorted(ctx.items())))
+        for th in spec["threads"]:
+            for run in th["runs"]:
+                if run.get("project") is not None:
+                    run["_file_path"] = os.path.join(pdir, f"p{run['project']}", "script.sql")
     # 1. isolated references first, while this process is still pristine and single-threaded
     refs = {}
     for th in spec["threads"]:
         for run in th["runs"]:
             ps = spec["providers"][run["provider"]] if run["provider"] is not None else None
             clean = {k: v for k, v in run.items() if k != "faults"}
-            key = digest([clean, ps])
+            key = digest([{k: v for k, v in clean.items() if k != "_file_path"}, ps])
             if key not in refs:
                 refs[key] = reference(clean, ps)
             run["_ref"] = key
@@ -401,6 +419,9 @@ def run_one(spec: dict) -> dict:
             kwargs = {"dialect": run["dialect"], "silent_mode": bool(run.get("silent"))}
             if prov is not None:
                 kwargs["metadata_provider"] = prov
+            if run.get("_file_path"):
+                kwargs["file_path"] = run["_file_path"]
+                w.probe("project_sqlfluff_config")
             sql = run.get("sep", ";\n").join(run["script"])
 
             def go():
@@ -479,6 +500,7 @@ def run_one(spec: dict) -> dict:
     for th in spec["threads"]:
         for run in th["runs"]:
             run.pop("_ref", None)
+            run.pop("_file_path", None)
             for f in run.get("faults", ()):
                 f.pop("_fired", None)
     op_events = [[e[1], e[2], e[3]] for e in w.events]
@@ -664,12 +686,32 @@ def gen(seed, tier="quick") -> dict:
                 shared_texts.append({k: v for k, v in run.items()})
             runs.append(run)
         threads.append({"runs": runs})
+    projects = []
+    if g.random() < 0.12:
+        # two project directories; some runs of this world are templated scripts analysed with file_path pointing
+        # into one of them - byte-identical text, different jinja context
+        tabs = sorted(BASE_META) + UNIVERSE
+        for _ in range(2):
+            projects.append({"src_tbl": g.choice(sorted(BASE_META)), "tgt_tbl": g.choice(UNIVERSE), "other_tbl": g.choice(tabs)})
+        tscript = ["INSERT INTO {{ tgt_tbl }} SELECT * FROM {{ src_tbl }}", "INSERT INTO s.t4 SELECT * FROM {{ tgt_tbl }} JOIN {{ other_tbl }} ON 1 = 1"][: g.choice([1, 2])]
+        for ti, th in enumerate(threads):
+            for k in range(g.choice([1, 2])):
+                rid += 1
+                own_idx = [i for i, _p in enumerate(providers)]
+                run = {"tag": f"proj{rid}", "script": list(tscript), "dialect": "ansi", "provider": g.choice(own_idx[: 1 + ti]) if False else None,
+                       "faults": [], "silent": False, "accessors": g.sample(ACC_POOL, 3), "project": g.randrange(2)}
+                # own provider of this thread, if it has one
+                th_own = [r["provider"] for r in th["runs"] if r.get("provider") is not None]
+                if th_own and g.random() < 0.7:
+                    run["provider"] = th_own[0]
+                th["runs"].insert(g.randrange(len(th["runs"]) + 1), run)
     line_choices = [[], ["runner", "metadata_provider"], ["runner", "metadata_provider"]]
     if tier == "thorough":
         line_choices.append(["runner", "metadata_provider", "holders"])
     return {
         "seed": seed,
         "providers": providers,
+        "projects": projects,
         "threads": threads,
         "sched": g.choice(["random", "sticky", "sticky50", "pct1", "pct2", "pct3", "retbias"]),
         "line": g.choice(line_choices),
